@@ -39,7 +39,9 @@ def stage_cfgs(tier):
 def stage_phase_cfgs(tier):
     c = [Cfg(1, 2, LQ, phase=40), Cfg(2, 1, LQ, phase=25), Cfg(1, 2, LQ, phase=60), Cfg(1, 2, LQ, phase=0), Cfg(1, 2, LQ, phase=100), Cfg(3, 2, LQ, phase=35)]
     if tier == 'thorough':
-        c += [Cfg(1, 2, MQ, phase=40), Cfg(2, 1, MQ, phase=25)] + [Cfg(1, 2, HQ, phase=p) for p in (0, 25, 40, 49, 60, 75, 100)] + [Cfg(1, 3, VHQ, phase=42), Cfg(2, 1, VHQ, phase=40), Cfg(44100, 48000, HQ, phase=25)]
+        # intermediate-phase (non-symmetric) filters above ~600 taps need the |H|^2 query of degree 2n: no verdict in 1800 s (measured: 1:2 HQ phase 25..75,
+        # 1:3 / 2:1 VHQ, 44.1k->48k HQ) - not registered; minimum / maximum phase HQ (phase 0, 100) and the MQ filters are decided
+        c += [Cfg(1, 2, MQ, phase=40), Cfg(2, 1, MQ, phase=25), Cfg(1, 2, HQ, phase=0), Cfg(1, 2, HQ, phase=100)]
     return c
 
 
